@@ -21,16 +21,21 @@ PROPS = ["C04", "C10", "C12"]
 # per property and tier: list of (cfg, role); role "gen" = role A + B (inputs for the harness),
 # "model" = role A only
 PLAN = {
-    "C04": {"quick": [("l2flags_q", "gen"), ("l2eps_q", "gen")],
-            "thorough": [("l2flags_t4", "gen"), ("l2flags_t3", "gen"), ("l2eps_t4", "gen"), ("l2eps_t3", "gen")]},
-    "C12": {"quick": [("lemma", "model"), ("duel", "gen"), ("pair_q", "gen"), ("l2flags_h", "gen")],
-            "thorough": [("lemma", "model"), ("duel", "gen"), ("pair_t", "gen"), ("l2flags_t3", "gen"), ("l2eps_t4", "gen")]},
-    "C10": {"quick": [("bgpflags_q", "gen"), ("bgpeps9_q", "gen"), ("bgpeps3_q", "gen"), ("bgpepsm_q", "gen")],
+    "C04": {"quick": [("l2flags_q", "gen"), ("l2eps_q", "gen"), ("seq_q", "gen"), ("cfg_q", "gen")],
+            "thorough": [("l2flags_t4", "gen"), ("l2flags_t3", "gen"), ("l2eps_t4", "gen"), ("l2eps_t3", "gen"),
+                         ("seq_t", "gen"), ("cfg_q", "gen")]},
+    "C12": {"quick": [("lemma", "model"), ("duel", "gen"), ("pair_q", "gen"), ("l2flags_h", "gen"), ("seq_q", "gen")],
+            "thorough": [("lemma", "model"), ("duel", "gen"), ("pair_t", "gen"), ("l2flags_t3", "gen"), ("l2eps_t4", "gen"),
+                         ("seq_t", "gen")]},
+    "C10": {"quick": [("bgpflags_q", "gen"), ("bgpeps9_q", "gen"), ("bgpeps3_q", "gen"), ("bgpepsm_q", "gen"),
+                      ("seq_q", "gen"), ("cfg_q", "gen")],
             "thorough": [("bgpflags_t", "gen"), ("bgpeps9_q", "gen"), ("bgpeps3_q", "gen"), ("bgpepsm_q", "gen"),
-                         ("bgpeps3m_t", "gen"), ("bgpeps4_t", "gen"), ("bgpeps39_t", "gen")]},
+                         ("bgpeps3m_t", "gen"), ("bgpeps4_t", "gen"), ("bgpeps39_t", "gen"),
+                         ("seq_t", "gen"), ("cfg_q", "gen")]},
 }
 E2E_SAMPLE = {"quick": 1500, "thorough": 6000}     # inputs also driven through the whole speaker controller
-BATCH = 150000                                      # inputs per harness run
+BATCH = 150000                                      # inputs per harness run (a multiple of SEQ_CHUNK)
+SEQ_CHUNK = 50                                      # sequences evaluated one after the other on the same real controllers
 CHUNK = 9000                                        # observations per judging TLC process
 JUDGES = 8                                          # judging TLC processes at a time
 CONFIRM_PER_SIG = 3
@@ -42,6 +47,12 @@ ASSUME = {
             "the memberlist view is a stand-in SpeakerList (Nodes = live members, Disabled when membership tracking is off), "
             "exactly what speakerlist.UsableSpeakers reports; no real memberlist cluster is started",
             "node flags NetworkUnavailable / exclude label exist only on nodes the speakers hold a Node object for"],
+    "SEQ": ["sequence mode: every node keeps its Node object (a speaker never forgets a node); a view is reached from the previous "
+            "one with SetConfig only if the advertisements changed, SetNode per changed Node, a full re-sync when a handler returns "
+            "ReprocessAll or the memberlist changed, SetBalancer for Services whose endpoints / policy changed; the cluster objects "
+            "seen by a re-sync are those of the new view",
+            "configuration mode: two pools, advertisements with identical attributes that differ in pool names, pool selectors and "
+            "node selectors, parsed by config.For with DontValidate"],
     "C12": ["eligible sets are varied by every cause the code knows (no live speaker, not selected by an advertisement, "
             "NetworkUnavailable, exclude label, no local endpoint under Local); 4 node names, 3 address pairs",
             "the election order is never computed by the check: it is the observed outcome of two-node duels"],
@@ -81,9 +92,9 @@ def generate(chk, cfg, role, seen):
     return out
 
 
-def with_id(line, ident, e2e):
-    """canonical input string -> input string carrying its id (and the whole-controller flag)"""
-    return '{"id":"%s",%s%s' % (ident, '"e2e":true,' if e2e else "", line[1:])
+def with_id(line, ident, e2e, chunk=None):
+    """canonical input string -> input string carrying its id (and the whole-controller flag / the chunk number)"""
+    return '{"id":"%s",%s%s%s' % (ident, '"e2e":true,' if e2e else "", '"chunk":%d,' % chunk if chunk is not None else "", line[1:])
 
 
 # --------------------------------------------------------------------------- harness
@@ -188,6 +199,23 @@ def signatures(name, g, o):
                         counts.add(len(ann))
         return ["%s|%s|elig=%d|announcers=%s" % (name, ctx, min(len(info.get("elig", [])), 2),
                                                   "+".join(str(c) for c in sorted(counts)))]
+    if ".Seq" in name:
+        m = o["in"].get("meta", {})
+        key = name.split(".Seq")[1].lower()
+        steps = info.get("steps", {}).get(key, [])
+        return ["%s|dim=%s|etp=%s|ml=%s|ign=%s|step=%s" % (name, m.get("d"), m.get("etp"), str(m.get("ml")).lower(),
+                                                          str(m.get("ign")).lower(), min(steps) if steps else "?")]
+    if ".Cfg" in name:
+        advs = o["in"].get("cfg", {}).get("advs", [])
+        shape = "advs=%d" % len(advs)
+        if len(advs) == 2:
+            same = [k for k in ("pools", "psel", "nsel") if advs[0][k] == advs[1][k]]
+            shape += "|same=" + "+".join(same)
+        if name.startswith("C10.Cfg"):
+            want = set(info.get("bgpwant", []))
+            got = {n for n, r in o.get("cbgp", {}).items() if r == ""} if name == "C10.CfgIff" else set(o.get("e2e", {}).get("bgp", []))
+            shape += "|" + ("missing" if want - got else "extra" if got - want else "routes")
+        return ["%s|%s" % (name, shape)]
     if name == "C10.Iff":
         out = set()
         for b in info.get("bgp", []):
@@ -207,6 +235,10 @@ def _count_evaluations(o):
             n += len(o[key]) * 4 * 3 * len(i[vw]["nodes"])
     if "bgp" in o:
         n += sum(len(x) for x in o["bgp"].values())
+    if "seq" in o:
+        n += sum(2 * 2 * len(vw["nodes"]) for vw in i["views"])
+    if "cbgp" in o:
+        n += 4 * len(o["cbgp"])
     return n
 
 
@@ -220,6 +252,10 @@ def _nontrivial(o):
         return any_ann(o["decb"]) and any_ann(o["decp"]) and o["in"]["base"] != o["in"]["pert"]
     if "bgp" in o:
         return any(r == "" for rs in o["bgp"].values() for r in rs)
+    if "seq" in o:     # what is announced changes along the sequence
+        return any(a["l2"] != b["l2"] or a["bgp"] != b["bgp"] for a, b in zip(o["seq"], o["seq"][1:]))
+    if "cbgp" in o:
+        return any(r == "" for r in o["cbgp"].values())
     return False
 
 
@@ -255,11 +291,12 @@ def process(chk, inputs, duel_obs, tag, all_fail_sigs, obs_lines=None):
     for sig, items in bysig.items():
         all_fail_sigs[sig] = all_fail_sigs.get(sig, 0) + len(items)
     if bysig:
-        confirm(chk, bysig, duel_obs)
+        confirm(chk, bysig, duel_obs, inputs)
 
 
-def confirm(chk, bysig, duel_obs):
-    """Every signature: the first few failing inputs are executed again, alone, and judged again."""
+def confirm(chk, bysig, duel_obs, batch):
+    """Every signature: the first few failing inputs are executed again, alone, and judged again.  A failing sequence is
+    executed again together with the sequences that preceded it on the same controllers (its chunk)."""
     duel_inputs = [json.loads(l)["in"] for l in duel_obs]
     todo = []
     for sig, items in sorted(bysig.items()):
@@ -269,12 +306,29 @@ def confirm(chk, bysig, duel_obs):
             todo.append((sig, name, o))
     if not todo:
         return
+    index = None
     inputs = []
-    seen = {}
+    seen = set()
+    scen = {}
     for sig, name, o in todo:
-        if o["in"]["id"] not in seen:
-            seen[o["in"]["id"]] = len(inputs)
-            inputs.append(o["in"])
+        ident = o["in"]["id"]
+        mine = [o["in"]]
+        if o["in"]["kind"] == "seq":
+            if index is None:
+                index = {}
+                for k, l in enumerate(batch):
+                    m = re.match(r'\{"id":"([^"]*)"', l)
+                    index[m.group(1)] = k
+            k = index[ident]
+            first = k - (int(ident.rsplit("-", 1)[1]) % SEQ_CHUNK)
+            mine = [json.loads(l) for l in batch[max(first, 0):k + 1]]
+        scen[ident] = mine
+        for i in mine:
+            if i["id"] not in seen:
+                seen.add(i["id"])
+                inputs.append(i)
+    # sequences of one chunk must stay in their order
+    inputs.sort(key=lambda i: (i.get("chunk", -1), int(i["id"].rsplit("-", 1)[1])) if i["kind"] == "seq" else (-2, 0))
     obs2 = run_harness(chk, duel_inputs + inputs, "confirm")
     nd = len(duel_inputs)
     fails2 = judge(chk, obs2[nd:], obs2[:nd], "confirm")
@@ -292,8 +346,9 @@ def confirm(chk, bysig, duel_obs):
             chk.notes.append("unreproduced: %s on input %s" % (sig, o["in"]["id"]))
             continue
         g2, o2 = hit
+        needs_duels = "ByDuels" in name
         chk.fail(sig, name, detail={"observation": o2, "judge": g2},
-                 scenario={"family": "elect", "inputs": [o["in"]], "duels": duel_inputs if name.startswith("C12.ByDuels") else []})
+                 scenario={"family": "elect", "inputs": scen[o["in"]["id"]], "duels": duel_inputs if needs_duels else []})
 
 
 def run(chk):
@@ -318,9 +373,11 @@ def run(chk):
         lines = generate(chk, cfg, role, seen)
         total += len(lines)
         # a seeded sample of the view inputs is also driven through the whole speaker controller
-        view_kind = not cfg.startswith(("duel", "pair"))
+        view_kind = not cfg.startswith(("duel", "pair", "seq", "cfg"))
+        is_seq = cfg.startswith("seq")
         e2e_every = max(1, len(lines) * ngen // E2E_SAMPLE[chk.tier])
-        inputs = [with_id(l, "%s-%d" % (cfg, n), view_kind and rnd.randrange(e2e_every) == 0) for n, l in enumerate(lines)]
+        inputs = [with_id(l, "%s-%d" % (cfg, n), view_kind and rnd.randrange(e2e_every) == 0, n // SEQ_CHUNK if is_seq else None)
+                  for n, l in enumerate(lines)]
         del lines
         if cfg == "duel":
             # the observed election order comes first; its observations precede every judged chunk
@@ -339,7 +396,7 @@ def run(chk):
         "the real controllers of all nodes, for 4 service shapes x address pairs x 3 list arrangements (layer 2) or both nodes x 3 "
         "arrangements (BGP); evaluations = recorded ShouldAnnounce decisions; non-trivial = distinct inputs on which at least one "
         "node announces (pair inputs: on both views, and the views differ)")
-    chk.assumptions += ASSUME[chk.prop]
+    chk.assumptions += ASSUME[chk.prop] + ASSUME["SEQ"]
 
 
 def replay(chk, path):
